@@ -274,7 +274,9 @@ def evaluate__function_reference(self: XPathToken, context: ta.ContextType = Non
 
         if token_class.symbol == 'function' or not token_class.label.endswith('function'):
             raise self.error('XPST0003')
-        assert issubclass(token_class, XPathFunction)
+        elif not issubclass(token_class, XPathFunction):
+            # a proxy token: the name exists only in other namespaces
+            raise self.error('XPST0017', f"unknown function {qname.qname}#{arity}")
 
     try:
         func = token_class(self.parser, nargs=arity)
